@@ -1,25 +1,10 @@
-"""C05: p-value, statistic and dist mutually consistent -- thin wrapper over harness/core_runs.py (shared scripted-tape runs of the unstratified tests)."""
-from .. import core_runs as CR
-from ..core_runs import COQ_HEADER, run, to_coq, extra_terms, nontrivial, key, SKIPPED
+"""C05: p-value, statistic and dist mutually consistent -- wrapper over harness/all_rand.py (scripted-tape runs of the unstratified and stratified tests and helpers)."""
+from .. import all_rand as AR
+from ..all_rand import COQ_HEADER, run, to_coq, extra_terms, nontrivial, key, cases, SKIPPED
 
-RULE = ("same runs as C01: p recomputed from the returned dist with exact rational comparisons, keep_dist twins under identical draws, bounds, len(dist); real seeds incl. the float statistics 'mean' and 't'")
-ASSUMPTIONS = CR_ASSUMPTIONS = [
+RULE = ('all scripted and real-seed runs: p recomputed from the returned dist with exact rational comparisons in the stated direction (ties count), keep_dist twins on identical draws, bounds, len(dist)=reps; functions: two_sample, two_sample_shift, one_sample, corr, spearman_corr, k_sample, bivariate_k_sample, sim_corr, stratified_permutationtest, stratified_two_sample, simulate_ts_dist; non-trivial = simulated values tie with or straddle the observed one')
+ASSUMPTIONS = [
     "the generator is driven through a scripted subclass of cryptorandom.SHA256 (harness/tape.py): requests are answered lazily and logged; the same answers are replayed for the keep_dist twin",
-    "data are small integers times the product of the group sizes times a power of two (optionally plus a large offset), so every named float statistic is exact in binary64",
-    "SHA-256 / Mersenne-Twister output is assumed uniform (real-seed runs check reproducibility and the p-value assembly only)"]
-ALLOWED = ['p-not-from-dist', 'keepdist-differs', 'keepdist-raises', 'keepdist-draws', 'p-range', 'dist-length', 'observed-stat']
-FOCUS = None
-
-
-def cases(tier, rng, dist):
-    return CR.cases(tier, rng, dist, focus=FOCUS)
-
-
-def oracle(c, o):
-    r = CR.oracle(c, o)
-    if r is None:
-        return None
-    suffix = r["cls"].split(":", 1)[1] if ":" in r["cls"] else r["cls"]
-    if suffix in ALLOWED or suffix in ("raises", "harness-exception"):
-        return r
-    return None
+    "data are exactly representable (small integers times group-size products times powers of two, optional large offsets), so named float statistics are exact; 't'-type statistics are black boxes checked through dist",
+    "SHA-256 / Mersenne-Twister output is assumed uniform; condition.argsort() is an oracle input of the model"]
+oracle = AR.filtered_oracle(['p-not-from-dist', 'keepdist-differs', 'keepdist-raises', 'keepdist-draws', 'p-range', 'dist-length', 'tail', 'observed-stat'])
